@@ -44,3 +44,56 @@ Definition desc_of (kind a b : N) : keydesc :=
   else if kind =? 2 then Ed25519 else OtherKey.
 Definition c10_bad (c : N * N * N * bool) : bool :=
   let '(kind, a, b, obs) := c in negb (Bool.eqb (validate (desc_of kind a b)) obs).
+
+(* ---------------------------------------------------------------------------------------------
+   The parse step made explicit.  A submitted key file / parameter is turned into a key TWICE on
+   the SSH path of the code: once by the validator (getValidSSHPublicKey: a regular expression, then
+   a parser, then the strength predicate) and once by the signer (certgen.GenSSHCertFileString
+   parses the text it is handed again).  The other five paths parse once and sign the object they
+   validated.  So the parse step has two outputs: the key the strength check is applied to and the
+   key that ends up in the certificate.  A key is (identity, description): two different keys may
+   have the same description. *)
+Definition pkey := (N * keydesc)%type.
+Record parse_out := { validated : option pkey; signed : option pkey }.
+
+Definition pipeline2 (p : parse_out) : outcome :=
+  match validated p with
+  | None => ClientError
+  | Some kv => if validate (snd kv)
+               then match signed p with Some ks => Signed (snd ks) | None => ServerError end
+               else ClientError
+  end.
+
+Definition pkey_eqb (x y : pkey) : bool := fst x =? fst y.
+(* the two parsers agree on which key the input holds *)
+Definition agree (p : parse_out) : Prop := signed p = validated p.
+Definition agreeb (p : parse_out) : bool :=
+  match signed p, validated p with
+  | Some s, Some v => pkey_eqb s v
+  | None, None => true
+  | _, _ => false
+  end.
+
+(* the six issuing paths *)
+Inductive kpath := KSsh | KX509 | KKube | KRole | KRefresh | KAws.
+Definition parses_twice (p : kpath) : bool := match p with KSsh => true | _ => false end.
+(* [v] what the validator's parser delivers, [s] what the signer's second parser delivers (only
+   consulted on a path that parses twice) *)
+Definition pipeline_of (p : kpath) (v s : option pkey) : outcome :=
+  pipeline2 {| validated := v; signed := if parses_twice p then s else v |}.
+
+(* correspondence: (validated, certified, class) with a key as (identity, kind, a, b); identity 0 =
+   a key outside the harness's table *)
+Definition pkey_of (k : N * N * N * N) : pkey := let '(id, kind, a, b) := k in (id, desc_of kind a b).
+Definition c10_file_bad (c : option (N * N * N * N) * option (N * N * N * N) * N) : bool :=
+  let '(v, s, cls) := c in
+  (* the certified key is only observable when a certificate came back *)
+  match pipeline2 {| validated := option_map pkey_of v;
+                     signed := if cls =? 0 then option_map pkey_of s else option_map pkey_of v |} with
+  | Signed _ => negb (cls =? 0) && negb (cls =? 1)     (* Ed25519 without an Ed25519 CA: 422 *)
+  | ClientError => negb (cls =? 1)
+  | ServerError => true
+  end.
+Definition c10_agree_bad (c : option (N * N * N * N) * option (N * N * N * N) * N) : bool :=
+  let '(v, s, cls) := c in
+  (cls =? 0) && negb (agreeb {| validated := option_map pkey_of v; signed := option_map pkey_of s |}).
